@@ -2,6 +2,7 @@ package rules
 
 import (
 	"go/token"
+	"go/types"
 	"sort"
 	"strings"
 
@@ -422,11 +423,11 @@ func runC41(c *core.Ctx) {
 			if !ok || bi.Name() != "len" {
 				return false
 			}
-			lk, ok := cl.Common().Args[0].(*ssa.Lookup)
-			if !ok {
+			outer := innerSetOf(cl.Common().Args[0], 0)
+			if outer == nil {
 				return false
 			}
-			signers = lk.X
+			signers = outer
 			return true
 		}
 		eng.Dominates(c, "C41.threshold", fn, relGuard("len(signers[p]) + 1 >= threshold(N)", isLenPlus1, func(v ssa.Value) bool { return true }, token.GEQ), sinks, "proposer answered", nil)
@@ -438,8 +439,7 @@ func runC41(c *core.Ctx) {
 				if !ok {
 					continue
 				}
-				lk, isLk := mu.Map.(*ssa.Lookup)
-				if !isLk || signers == nil || lk.X != signers {
+				if signers == nil || innerSetOf(mu.Map, 0) != signers {
 					continue
 				}
 				nKeys++
@@ -557,4 +557,50 @@ func runC41(c *core.Ctx) {
 		}
 		c.Decide(okProp, "C41.seal", fn, "the proposer's signature is added exactly once (mutually exclusive branches)", c.P.Rel(fn.Pos()), sprintf("%d branch(es)", len(bl)))
 	}
+}
+
+// innerSetOf: v is an element of a map of maps (the per-proposal signer set) —
+// `outer[k]`, the value of `s, ok := outer[k]`, a fresh map that is stored into
+// outer, or a phi of those.  Returns the outer map (nil if v is not such a value).
+func innerSetOf(v ssa.Value, depth int) ssa.Value {
+	if depth > 4 || v == nil {
+		return nil
+	}
+	isMapOfMaps := func(x ssa.Value) bool {
+		m, ok := x.Type().Underlying().(*types.Map)
+		if !ok {
+			return false
+		}
+		_, inner := m.Elem().Underlying().(*types.Map)
+		return inner
+	}
+	switch x := v.(type) {
+	case *ssa.Lookup:
+		if !x.CommaOk && isMapOfMaps(x.X) {
+			return x.X
+		}
+	case *ssa.Extract:
+		if lk, ok := x.Tuple.(*ssa.Lookup); ok && x.Index == 0 && lk.CommaOk && isMapOfMaps(lk.X) {
+			return lk.X
+		}
+	case *ssa.MakeMap:
+		if x.Referrers() != nil {
+			for _, r := range *x.Referrers() {
+				if mu, ok := r.(*ssa.MapUpdate); ok && mu.Value == ssa.Value(x) && isMapOfMaps(mu.Map) {
+					return mu.Map
+				}
+			}
+		}
+	case *ssa.Phi:
+		var outer ssa.Value
+		for _, e := range x.Edges {
+			o := innerSetOf(e, depth+1)
+			if o == nil || (outer != nil && o != outer) {
+				return nil
+			}
+			outer = o
+		}
+		return outer
+	}
+	return nil
 }
